@@ -4,7 +4,9 @@ import (
 	"encoding/json"
 	"fmt"
 	"github.com/cosmos/cosmos-sdk/x/authz"
+	"github.com/cosmos/cosmos-sdk/x/crisis"
 	"math/big"
+	"strings"
 	"sync"
 	"time"
 
@@ -80,9 +82,14 @@ func New(g *script.Genesis, home string) (*Runner, error) { return NewOn(g, home
 
 // newApp constructs the application object on db. Crisis invariant checking at genesis stays
 // on (no skip flag); the periodic invariant check is off.
-func newApp(db dbm.DB, home string) *app.App {
+func newApp(db dbm.DB, home string) *app.App { return newAppOpts(db, home, false) }
+
+// newAppOpts: skipGenesisInvariants is the node-local flag --x-crisis-skip-assert-invariants. It is set on one of the twin
+// instances only (C01): what a node is told on its command line must not show in any hash.
+func newAppOpts(db dbm.DB, home string, skipGenesisInvariants bool) *app.App {
 	return app.NewApp(log.NewNopLogger(), db, nil, true,
-		simtestutil.AppOptionsMap{flags.FlagHome: home, server.FlagInvCheckPeriod: uint(0)},
+		simtestutil.AppOptionsMap{flags.FlagHome: home, server.FlagInvCheckPeriod: uint(0),
+			crisis.FlagSkipGenesisInvariants: skipGenesisInvariants},
 		baseapp.SetChainID(ChainID))
 }
 
@@ -108,7 +115,7 @@ func NewOn(g *script.Genesis, home, backend string) (r *Runner, err error) {
 	if r.db, r.dbDir, err = r.openDB(); err != nil {
 		return nil, err
 	}
-	a := newApp(r.db, home)
+	a := newAppOpts(r.db, home, backend == "goleveldb")
 	r.App = a
 	cdc := a.AppCodec()
 	gs := a.DefaultGenesis()
@@ -221,11 +228,11 @@ func NewOn(g *script.Genesis, home, backend string) (r *Runner, err error) {
 	eg.TotalSpent = eg.TotalLocked
 	eg.Whitelist = nil
 	for _, t := range g.Ent.WL {
-		i, err := r.Sym.AcctIndex(t)
-		if err != nil {
-			return nil, fmt.Errorf("G ent wl: %v", err)
+		a, err := r.Sym.Resolve(t) // scenario accounts and long addresses
+		if err != nil || !(strings.HasPrefix(t, "A") || strings.HasPrefix(t, "L")) {
+			return nil, fmt.Errorf("G ent wl: %v (%s)", err, t)
 		}
-		eg.Whitelist = append(eg.Whitelist, r.Sym.Addrs[i].String())
+		eg.Whitelist = append(eg.Whitelist, a)
 	}
 	gs[enttypes.ModuleName] = cdc.MustMarshalJSON(eg)
 
